@@ -925,6 +925,39 @@ fn oracle(ctx: &mut Ctx, idx: usize, case: &Case, out: &Out, rng: &mut Rng) {
                 } else if (total - t).abs() > REL * (acc.abs() + t.abs()) {
                     ctx.fail(idx, "edge_traversal/total-differs", format!("{}: access {} + (total {} - access) = {}", site, acc, t, total));
                 }
+                // the property's formula for the cost charged for accessing plus traversing the edge (sum
+                // aggregation): weights x rated state changes + per-edge surcharges + the per-turn surcharge
+                // of the edge pair, floored. (corpus witness: the "surcharges that hit" case, turn (1,3))
+                if needs_access && !case.mul && total.is_finite() && total > 0.0 {
+                    let pair = if k == 0 { (case.pe, case.e) } else { (case.e, case.ne) };
+                    let (mut turn, mut abs_turn, mut hits) = (0.0f64, 0.0f64, (0u64, 0u64));
+                    for f in &case.feats {
+                        let w = f.weight.unwrap_or(0.0);
+                        let mut leaves = vec![];
+                        if let Some(r) = &f.nrate {
+                            r.pair_leaves(pair.0, pair.1, &mut leaves, &mut hits);
+                        }
+                        turn += w * leaves.iter().sum::<f64>();
+                        abs_turn += w.abs() * leaves.iter().map(|x| x.abs()).sum::<f64>();
+                    }
+                    let s_full = sp.v + sp.n_trav + turn;
+                    let tol = REL * (sp.abs_v + sp.abs_trav + abs_turn);
+                    if turn.abs() > tol && s_full.is_finite() && tol.is_finite() {
+                        ctx.count("turn_surcharge_on_the_pair");
+                        let expected = if s_full > tol {
+                            Some(s_full)
+                        } else if s_full < -tol {
+                            Some(min_cost)
+                        } else {
+                            None
+                        };
+                        if let Some(x) = expected {
+                            if (total - x).abs() > tol {
+                                ctx.fail(idx, "edge_traversal/turn-surcharge-not-charged", format!("{}: turn ({}, {}) carries a weighted surcharge of {}; weights x rated changes + edge surcharges + turn surcharge = {} but total_cost() = {} (access share {})", site, pair.0, pair.1, turn, s_full, total, acc));
+                            }
+                        }
+                    }
+                }
             }
         }
     }
